@@ -74,3 +74,8 @@ Example C11_typed_example :
   /\ dec_typed ty_Transaction [xc9;x01;x04;x03;xc0;x02;x05;x80;x80;x80] = None
   /\ enc_typed ty_Transaction v = Some [xc9;x01;x04;x03;x80;x02;x05;x80;x80;x80].
 Proof. vm_compute. repeat split; reflexivity. Qed.
+
+(* bounded: the decoded value (all its strings together) is no larger than the input *)
+Theorem C11_decode_bounded : forall b x r, decode b = Some (x, r) -> item_bytes x + lenN r <= lenN b.
+Proof. exact decode_bounded. Qed.
+Print Assumptions C11_decode_bounded.
